@@ -301,9 +301,9 @@ func c11Concurrent(c *core.Ctx, k storeKind, ns string) bool {
 	var hmu sync.Mutex
 	var history []porcupine.Operation
 	type txnIv struct {
-		g          int64
-		call, ret  int64
-		id         string
+		g         int64
+		call, ret int64
+		id        string
 	}
 	var ivs []txnIv
 	var uidN int64
